@@ -1,30 +1,150 @@
-(** C23 — InfluxQL transformation functions follow their definitions.  Property theorems only. *)
-From Coq Require Import QArith Floats.SpecFloat.
-From Verif Require Import Base.Prelude Model.C23 Proofs.C23.
+(** C23 — InfluxQL transformation functions follow their definitions.  Property theorems only.
+
+    [*_run] is the mirror of the Go reducer (Aggregate point by point, Emit); [*_def] the
+    list-level definition.  Theorems quantified over [fo : fops F] hold for every
+    implementation of the float operations, in particular for IEEE binary64 ([SF64], what
+    the Go code computes, bit for bit) and for exact rationals ([QX], the textbook value). *)
+From Coq Require Import QArith Floats.SpecFloat Sorting.Permutation Sorting.Sorted.
+From Verif Require Import Base.Prelude Model.C23 Proofs.C23 Proofs.C23_agg Proofs.C23_mavg Proofs.C23_mode.
 Open Scope Z_scope.
 
+(** derivative / non_negative_derivative (any unit, ascending or descending): one output per
+    consecutive pair of the series with repeated timestamps dropped (first kept), at the later
+    time, value diff / (elapsed / unit); negative diffs dropped when non-negative. *)
 Theorem C23_derivative_eq_definition :
   forall F (fo : fops F) unit nonneg asc ps,
     derivative_run fo unit nonneg asc ps = derivative_def fo unit nonneg asc ps.
 Proof. intros; apply derivative_eq_def. Qed.
 Print Assumptions C23_derivative_eq_definition.
 
+(** difference / non_negative_difference, with int64 wrap-around of the subtraction *)
 Theorem C23_difference_eq_definition :
   forall nonneg ps, difference_run nonneg ps = difference_def nonneg ps.
 Proof. exact difference_eq_def. Qed.
 Print Assumptions C23_difference_eq_definition.
 
+Theorem C23_non_negative_difference_is_nonneg :
+  forall ps t v, In (t, v) (difference_run true ps) -> 0 <= v.
+Proof. intros ps t v. rewrite difference_eq_def. apply difference_def_nonneg. Qed.
+Print Assumptions C23_non_negative_difference_is_nonneg.
+
+(** elapsed(unit): (t2 - t1) / unit, truncated, for EVERY consecutive pair (no de-duplication) *)
 Theorem C23_elapsed_eq_definition :
   forall unit ps, elapsed_run unit ps = elapsed_def unit ps.
 Proof. exact elapsed_eq_def. Qed.
 Print Assumptions C23_elapsed_eq_definition.
 
+(** cumulative_sum: k-th output = (t_k, int64 image of v_0+...+v_k) although the reducer wraps
+    at every step *)
 Theorem C23_cumulative_sum_eq_definition :
   forall ps, cumsum_run ps = cumsum_def ps.
 Proof. exact cumsum_eq_def. Qed.
 Print Assumptions C23_cumulative_sum_eq_definition.
 
+(** moving_average(n), n >= 1: the ring buffer + running sum equals the sliding window of the
+    last n values (sum of the window as int64, divided by n, at the time of the newest point;
+    nothing until n points were seen).  The index-based formulation [movavg_def] used by the
+    oracle is tied by the correspondence check only. *)
+Theorem C23_moving_average_eq_window_definition :
+  forall F (fo : fops F) n ps, (1 <= n)%nat -> movavg_run fo n ps = movavg_win fo n [] ps.
+Proof. intros; apply movavg_eq_win; assumption. Qed.
+Print Assumptions C23_moving_average_eq_window_definition.
+
+(** integral(unit).
+    Full statement (REFUTED for integer fields, see below):
+      forall o ps, integral_run QX o ps "=" for each GROUP BY time window that holds a point,
+      the exact area under the linear interpolation of the series inside that window / unit.
+    Proved: without GROUP BY time (and all points inside the query's time range) the reducer
+    returns the trapezoid sum over all consecutive pairs with different timestamps. *)
+Theorem C23_integral_eq_definition_partial :
+  forall F (fo : fops F) o ps, no_cross o ps -> integral_run fo o ps = integral_def fo o ps.
+Proof. intros; apply integral_eq_def; assumption. Qed.
+Print Assumptions C23_integral_eq_definition_partial.
+
+Definition qpts_eqb (a b : list (Z * Q)) : bool :=
+  list_rel (fun x y => Z.eqb (fst x) (fst y) && Qeq_bool (snd x) (snd y)) a b.
+
+(** With GROUP BY time(10), unit 1, points (5,0),(15,10): even in exact arithmetic the mirror of
+    IntegerIntegralReducer reports 25/2 for the window starting at 10; the area is 75/2.
+    Replayed on the real code (findings.d/C23.json). *)
+Theorem C23_integral_windows_refuted :
+  exists o ps, io_interval o <> 0 /\
+    qpts_eqb (integral_run QX o ps) (integral_windows_def o ps) = false.
+Proof.
+  exists {| io_unit := 1; io_asc := true; io_interval := 10; io_start := MinTime; io_end := MaxTime |},
+         [P 5 0; P 15 10].
+  split; [discriminate | vm_compute; reflexivity].
+Qed.
+Print Assumptions C23_integral_windows_refuted.
+
+(** spread = max - min (as int64) *)
 Theorem C23_spread_eq_definition :
   forall ps, Forall (fun p => in_i64 (pt_v p)) ps -> spread_run ps = spread_def ps.
 Proof. exact spread_eq_def. Qed.
 Print Assumptions C23_spread_eq_definition.
+
+(** mean = (int64 image of the sum) / count *)
+Theorem C23_mean_eq_definition :
+  forall F (fo : fops F) ps,
+    mean_run fo ps =
+    [(ZeroTime, f_div fo (f_ofZ fo (wrap64 (sumZ (map pt_v ps)))) (f_ofZ fo (Z.of_nat (length ps))))].
+Proof. intros; apply mean_eq_def. Qed.
+Print Assumptions C23_mean_eq_definition.
+
+(** the sort used by percentile / median / mode yields a sorted permutation *)
+Theorem C23_sort_is_sorted_permutation :
+  forall ps, Permutation (isort ps) ps /\ StronglySorted (fun a b => pt_v a <= pt_v b) (isort ps).
+Proof. intro ps. split; [apply isort_perm | apply isort_sorted]. Qed.
+Print Assumptions C23_sort_is_sorted_permutation.
+
+(** percentile: for rank index i (see [pidx_sf]/[pidx_q]) inside the series the result is the
+    input point at rank i of the sorted series, with that point's time; outside: nothing *)
+Theorem C23_percentile_is_order_statistic :
+  forall i ps,
+    (0 <= i < Z.of_nat (length ps) ->
+       exists p, pctl_at i ps = [(pt_t p, pt_v p)] /\ In p ps /\ p = nth (Z.to_nat i) (isort ps) pt0) /\
+    (~ (0 <= i < Z.of_nat (length ps)) -> pctl_at i ps = []).
+Proof. intros i ps. split; [apply pctl_at_spec | apply pctl_at_out]. Qed.
+Print Assumptions C23_percentile_is_order_statistic.
+
+(** median of an even number of points: lo + (hi - lo)/2 is the mean of the two middle values
+    in exact arithmetic whenever hi - lo does not overflow int64 *)
+Theorem C23_median_even_exact :
+  forall lo hi, in_i64 (hi - lo) ->
+    (inject_Z lo + inject_Z (wrap64 (hi - lo)) / inject_Z 2 == (inject_Z lo + inject_Z hi) / inject_Z 2)%Q.
+Proof. exact median_exact_even. Qed.
+Print Assumptions C23_median_even_exact.
+
+(** mode: the reported value occurs, and no value occurs more often.
+    (Which of several most frequent values is reported follows the Go loop exactly in the
+    mirror; it is NOT always the one with the earliest timestamp, see the report.) *)
+Theorem C23_mode_is_most_frequent :
+  forall ps, ps <> [] ->
+    exists t v, mode_run ps = [(t, v)] /\ 0 < count_v v ps /\ forall w, count_v w ps <= count_v v ps.
+Proof. intros ps H. destruct (mode_run_is_mode ps H) as [t [v [E [A B]]]]. eauto. Qed.
+Print Assumptions C23_mode_is_most_frequent.
+
+(** top(n) / bottom(n), n >= 1: the n best points of the whole series, best first, where
+    "better" = larger (top) / smaller (bottom) value, ties by earlier time *)
+Theorem C23_top_bottom_eq_definition :
+  forall top n ps, (1 <= n)%nat -> topbottom_run top n ps = topbottom_def top n ps.
+Proof. exact topbottom_eq_def. Qed.
+Print Assumptions C23_top_bottom_eq_definition.
+
+Theorem C23_top_bottom_order_is_sorted_permutation :
+  forall top ps, Permutation (sort_best top ps) ps /\
+                 StronglySorted (fun a b => better top b a = false) (sort_best top ps).
+Proof. intros top ps. split; [apply sort_best_perm | apply sort_best_sorted]. Qed.
+Print Assumptions C23_top_bottom_order_is_sorted_permutation.
+
+(** Non-vacuity: concrete series on which the binary64 mirrors produce non-trivial output, and
+    the refuting integral case with its two values. *)
+Example C23_nonvacuous :
+  derivative_run SF64 1 false true [P 0 1; P 0 9; P 2 5; P 2 7; P 3 5]
+    = [(2, S754_finite false 4503599627370496 (-51)); (3, S754_zero false)] /\
+  difference_run true [P 0 5; P 1 3; P 1 9; P 2 4; P 3 4] = [(2, 1); (3, 0)] /\
+  cumsum_run [P 0 MaxI64; P 1 1] = [(0, MaxI64); (1, MinI64)] /\
+  topbottom_run true 2 [P 3 5; P 1 5; P 2 5; P 0 1] = [(1, 5); (2, 5)] /\
+  integral_run QX {| io_unit := 1; io_asc := true; io_interval := 10; io_start := MinTime; io_end := MaxTime |}
+               [P 5 0; P 15 10] = [(0, (250 # 20)%Q); (10, (250 # 20)%Q)].
+Proof. vm_compute. repeat split; reflexivity. Qed.
